@@ -153,7 +153,8 @@ def run_impl_seq(case, clock, full):
     from rbacx.core.cache import DefaultInMemoryCache
 
     mops, reads = case["_mops"], case["_reads"]
-    cache = DefaultInMemoryCache(case["cap"])
+    # "default_ctor": the cache is built without arguments; the case's cap (2048) is what the model is given
+    cache = DefaultInMemoryCache() if case.get("default_ctor") else DefaultInMemoryCache(case["cap"])
     res, sts = [], []
     for m, rd in zip(mops, reads):
         clock.load(rd)
@@ -424,7 +425,7 @@ def probe(chk, case):
     gets = [["get", k] for k in keys]
     tails.append(gets)
     tails.append([["tick", 1]] + gets)
-    for fresh in range(1, max(cap, 1) + 1):
+    for fresh in range(1, min(max(cap, 1), 6) + 1):
         fill = [["set", f"~f{j}", n + j, None] for j in range(fresh)]
         tails.append(fill + gets)
         tails.append(fill + [["tick", 0.25]] + gets)
@@ -536,6 +537,14 @@ def bigkey_case(rng, scale):
         else:
             ops.append(["tick", rng.choice([0.25, 0.5, 1, 2])])
     return {"kind": "seq", "cap": cap, "ops": ops, "fam": "bigkeys:" + style, "full": False}
+
+
+def default_ctor_case(rng):
+    """DefaultInMemoryCache() without arguments holds 2048 entries."""
+    n = 2048 + rng.choice([1, 2, 60])
+    ops = [["set", f"k{i}", i, None] for i in range(n)]
+    ops += [["get", "k0"], ["get", f"k{n - 2048 - 1}"], ["get", f"k{n - 2048}"], ["get", f"k{n - 1}"]]
+    return {"kind": "seq", "cap": 2048, "default_ctor": True, "ops": ops, "fam": "default_ctor", "full": False}
 
 
 # --------------------------------------------------------------------------
@@ -1003,6 +1012,8 @@ def run(chk):
     for ch in chunks((bigkey_case(rng, 1.0 if quick else 2.5) for _ in range(n3)), 20):
         if not stop_early(chk):
             check_seq(chk, ch)
+    if not stop_early(chk):
+        check_seq(chk, [default_ctor_case(rng)])
     # 4. concurrency
     t_conc = time.time()
     budget = (18 if quick else 240) * (3 if not rep["ok"] else 1)
